@@ -262,6 +262,33 @@ func EnvStubs(st map[string]StubFn) {
 		}
 		return ""
 	}
+	// os.LookupEnv: the value os.Getenv gives, and "set" - a variable with a non-empty value is
+	// set; an empty one may be set or not (arbitrary)
+	st["os.LookupEnv"] = func(r *Run, fr *frame, fn *ssa.Function, a []value) value {
+		k, _ := a[0].(string)
+		v, ok := r.Env["env:"+k]
+		if !ok {
+			return tuple{"", false}
+		}
+		switch x := v.(type) {
+		case string:
+			if x != "" {
+				return tuple{x, true}
+			}
+			return tuple{x, r.branch(r.newInput("env.set:"+k, SBool))}
+		case *Term:
+			if r.branch(simplifyBool(Not(Eq(x, StrT(""))))) {
+				return tuple{v, true}
+			}
+			return tuple{v, r.branch(r.newInput("env.set:"+k, SBool))}
+		case runesV:
+			if len(x.cps) > 0 {
+				return tuple{v, true}
+			}
+			return tuple{v, r.branch(r.newInput("env.set:"+k, SBool))}
+		}
+		panic(unsupported("os.LookupEnv of " + k))
+	}
 	st["os.Exit"] = func(r *Run, fr *frame, fn *ssa.Function, a []value) value {
 		panic(exitPath{a[0]})
 	}
@@ -450,10 +477,18 @@ func EnvStubs(st map[string]StubFn) {
 		return nil
 	}
 	st[vrtPkg+"EffectCount"] = func(r *Run, fr *frame, fn *ssa.Function, a []value) value { return len(r.Effects) }
+	// (an index outside the trace names no effect: empty answers, as on the native side)
+	noEffect := func(r *Run, i value) bool { k := asInt64(i); return k < 0 || k >= int64(len(r.Effects)) }
 	st[vrtPkg+"EffectOp"] = func(r *Run, fr *frame, fn *ssa.Function, a []value) value {
+		if noEffect(r, a[0]) {
+			return ""
+		}
 		return r.Effects[asInt64(a[0])].Op
 	}
 	st[vrtPkg+"EffectStr"] = func(r *Run, fr *frame, fn *ssa.Function, a []value) value {
+		if noEffect(r, a[0]) {
+			return ""
+		}
 		e := r.Effects[asInt64(a[0])]
 		j := int(asInt64(a[1]))
 		if j >= len(e.Args) {
@@ -466,6 +501,9 @@ func EnvStubs(st map[string]StubFn) {
 		return toString(e.Args[j])
 	}
 	st[vrtPkg+"EffectInt"] = func(r *Run, fr *frame, fn *ssa.Function, a []value) value {
+		if noEffect(r, a[0]) {
+			return 0
+		}
 		e := r.Effects[asInt64(a[0])]
 		j := int(asInt64(a[1]))
 		if j >= len(e.Args) {
